@@ -15,6 +15,7 @@ import (
 	"golang.org/x/crypto/sha3"
 
 	"verifharness/core"
+	"verifharness/simnode"
 )
 
 func init() {
@@ -609,6 +610,46 @@ func runRows(e *core.Env, prop string) error {
 				}
 			}
 			e.Add(c)
+		}
+	}
+	if prop == "C11" {
+		// the whole path: JSON-RPC node -> jrpc2.Client.Get -> Integration.Insert -> COPY rows, for log,
+		// transaction and trace declarations (two logs and two trace actions with distinct values in
+		// every transaction); every stored column is compared with the node's own value of the field
+		// it names. Values are rendered when COPY drains the row source, as pgx does.
+		chain := transferChain(5, 1+e.Seed%7)
+		node := simnode.NewNode(chain)
+		defer node.Close()
+		var sets [][]string
+		for _, f := range allFields {
+			sets = append(sets, []string{f})
+		}
+		for i := 0; i < e.N(60, 1500); i++ {
+			var fs []string
+			p := 1 + r.Intn(6)
+			for _, f := range allFields {
+				if r.Intn(8) < p {
+					fs = append(fs, f)
+				}
+			}
+			if len(fs) > 0 {
+				sets = append(sets, fs)
+			}
+		}
+		for _, fs := range sets {
+			mode, ok := modeFor(fs)
+			if !ok {
+				continue
+			}
+			modes := []string{mode}
+			if mode == "tx" && r.Chance(1, 3) {
+				modes = append(modes, "log")
+			}
+			for _, m := range modes {
+				res, detail := e2eFields(node, chain, m, fs)
+				e.Add(core.Case{Impl: res, Spec: "ok", Key: "e2e " + m + " " + strings.Join(fs, ","), Nontrivial: true,
+					Tags: []string{"e2e", "mode=" + m}, Detail: detail})
+			}
 		}
 	}
 	return nil
